@@ -32,9 +32,9 @@ ALIASES = {"quantum": "quantum", "qfun": "quantum.functional", "qsystem": "qsyst
 ALIAS_OF = {v: k for k, v in ALIASES.items()}
 
 
-def generate(ctx):
+def generate(ctx, errors=None):
     import tr_gates
-    text, table = tr_gates.translate(ctx)
+    text, table = tr_gates.translate(ctx, errors)
     ctx.gen("GenGates.v", text)
     return table
 
@@ -202,7 +202,8 @@ def parse_outs(out):
 
 def run(ctx):
     import tr_gates
-    table = generate(ctx)
+    tr_errors = []
+    table = generate(ctx, tr_errors)
     info = ctx.coq_props()
     show = ctx.coq_make(["C20/Show.vo"])
     r = vlib.rng(ctx.seed, "C20")
@@ -310,6 +311,11 @@ def run(ctx):
         if not (isinstance(got, list) and want in got and all(g == want for g in got)):
             ctx.report(f"array:{key}", "counterexample", f"{key} does not compile to a loop over {want}",
                        {"quantum_ops_in_compiled_function": got, "expected_only": want})
+    if tr_errors and not ctx.violations:
+        ctx.report("translator:" + tr_errors[0], "proof-broken", "translator (compiler wiring)",
+                   {"errors": tr_errors, "searched_programs": len(progs),
+                    "meaning": "a custom call compiler changed shape; the 0.21.6 wiring was used as the expected behaviour and no program distinguishing it from the new code was found"},
+                   found_input=False)
     if not info["ok"]:
         if not ctx.violations:
             ctx.report("proof-broken:" + str(info["failed"]), "proof-broken", str(info["failed"]),
@@ -338,7 +344,7 @@ def run(ctx):
         stats=stats, ops_seen=sorted(ops_seen), table_functions=len(table["fns"]), array_ops=arr,
         samples=[{"program": progs[j]["src"], "emitted_ops": impl["results"][j].get("events")}
                  for j in (0, len(progs) // 2, len(progs) - 1)],
-        notes=ctx.notes[:20])
+        translator_errors=tr_errors, notes=ctx.notes[:20])
     return ctx.finish(LEVEL, cov, ["tket ops act on qubits as documented by tket (matrices not modelled)",
                                    "HUGR node order within a dataflow block is program order",
                                    "the emulator half of the property is not observable in this sandbox"])
